@@ -1,7 +1,7 @@
 (* C07 — Decoding is total and its normalisation is idempotent. *)
 From Coq Require Import List String Bool ZArith.
 Local Open Scope Z_scope.
-From Spec Require Import Base.Json Codec.Types Codec.Gen_Tables Codec.Codec Codec.CodecFacts Codec.PayloadFacts Codec.TypedFacts.
+From Spec Require Import Base.Json Base.JsonRoundTrip Codec.Types Codec.Gen_Tables Codec.Codec Codec.CodecFacts Codec.PayloadFacts Codec.TypedFacts.
 Import ListNotations.
 Local Open Scope string_scope.
 
@@ -96,3 +96,14 @@ Proof.
   split; [vm_compute; reflexivity|].
   intros f Hf. apply filter_In in Hf. destruct Hf as [_ Hf]. apply andb_true_iff in Hf. apply simple_tyb_sound. exact (proj2 Hf).
 Qed.
+
+(* The text level (Base/JsonRoundTrip.v): whatever tree the model writes as text, the tree its reader returns for that text is a fixed
+   point - written and read once more it comes back as it is (the numbers are in the one form the writer uses from the first pass
+   on).  Unbounded: every tree, any strings and member names, any depth. *)
+Theorem C07_text_normalisation_is_idempotent : forall j j',
+  parse_json (print_json j) = Some j' -> parse_json (print_json j') = Some j'.
+Proof. exact text_normalisation_is_idempotent. Qed.
+Print Assumptions C07_text_normalisation_is_idempotent.
+Theorem C07_reading_written_text_never_fails : forall j, parse_json (print_json j) <> None.
+Proof. intros j. rewrite parse_print. discriminate. Qed.
+Print Assumptions C07_reading_written_text_never_fails.
